@@ -172,6 +172,48 @@ fn main() {
                     format!("dump {r}")
                 }
             }
+            "C" => {
+                // whole compiler through the public API: C <builder D|G> <gentable F|A> <settings x10> <hex>
+                let owned: Vec<String> = f[1..].iter().map(|s| s.to_string()).collect();
+                let r = with_watchdog(
+                    move || {
+                        let refs: Vec<&str> = owned.iter().map(|s| s.as_str()).collect();
+                        let mut settings = settings_from(&refs[2..]);
+                        settings = settings.builder_type(match refs[0] {
+                            "G" => rustemo_compiler::BuilderType::Generic,
+                            _ => rustemo_compiler::BuilderType::Default,
+                        });
+                        settings = settings.generator_table_type(match refs[1] {
+                            "A" => rustemo_compiler::GeneratorTableType::Arrays,
+                            _ => rustemo_compiler::GeneratorTableType::Functions,
+                        });
+                        let text = unhex(refs[12]);
+                        let dir = std::path::PathBuf::from(format!(
+                            "/verif/work/c16-{}-{:?}",
+                            std::process::id(),
+                            std::thread::current().id()
+                        ));
+                        let _ = std::fs::remove_dir_all(&dir);
+                        std::fs::create_dir_all(&dir).unwrap();
+                        let gp = dir.join("g.rustemo");
+                        std::fs::write(&gp, text).unwrap();
+                        let settings = settings
+                            .force(true)
+                            .out_dir_root(dir.clone())
+                            .out_dir_actions_root(dir.clone())
+                            .root_dir(dir.clone());
+                        let res = settings.process_grammar(&gp);
+                        let generated = dir.join("g.rs").exists();
+                        let _ = std::fs::remove_dir_all(&dir);
+                        match res {
+                            Ok(()) => format!("ok generated={}", generated as u8),
+                            Err(e) => format!("err {}", err_class(&e)),
+                        }
+                    },
+                    30000,
+                );
+                format!("compile {r}")
+            }
             "P" => {
                 if !loaded {
                     "parse notable".to_string()
@@ -208,7 +250,7 @@ fn main() {
             _ => "unknown-job".to_string(),
         };
         writeln!(out, "{no} {ans}").unwrap();
-        if ans.contains("timeout") && (ans.starts_with("parse timeout") || ans.starts_with("dump timeout")) {
+        if ans.contains("timeout") && (ans.starts_with("parse timeout") || ans.starts_with("dump timeout") || ans.starts_with("compile timeout")) {
             out.flush().unwrap();
             drop(out);
             use std::os::unix::process::CommandExt;
